@@ -6,6 +6,7 @@ inverse is a hypothesis here (C06 proves 1 % under the knot contract; 0.5 % is v
 the electrical balance decides (load-sharing mode 0).
 -/
 import FeemsProofs.C06
+import FeemsProofs.C04
 import FeemsModel.Model.Hybrid
 
 set_option linter.unusedSimpArgs false
@@ -122,6 +123,34 @@ theorem same_machine (e m : List Nat) :
   constructor
   · rintro ⟨⟨⟨a, b⟩, c⟩, d⟩; exact ⟨a, b, c, d⟩
   · rintro ⟨a, b, c, d⟩; exact ⟨⟨⟨a, b⟩, c⟩, d⟩
+
+/-! ### The repeated shaft balance (D28) -/
+
+open Feems.Shaft in
+/-- **Repeated shaft balance.** When the shaft lines are balanced once more with the PTI/PTO power the repeated
+electric balance decided, engines + PTI/PTO = loads holds again wherever the status series *that were given*
+leave running engines where engine power is needed — whatever the first balance did. -/
+theorem repeated_shaft_balance (l : Line) (pti' : Option Pti)
+    (h : (l.again pti').isFull = false → (l.again pti').load - (l.again pti').ptiOut ≠ 0 → 0 < (l.again pti').avail) :
+    rsum ((l.again pti').balance.engineOut) + (l.again pti').balance.ptiOut = l.load :=
+  C04.balance (l.again pti') h
+
+open Feems.Shaft in
+/-- The given status series are what the repeated balance works with: its available power is that of the line as
+given. -/
+theorem repeated_avail (l : Line) (pti' : Option Pti) : (l.again pti').avail = l.avail := rfl
+
+open Feems.Shaft in
+/-- As found (D28) the repeated balance worked with the status the first balance had written back: a 1000 kW
+engine that idles in the first balance (no load, PTI/PTO at rest) is off when the repeated electric balance asks
+the PTI/PTO to generate 500 kW from the shaft — 500 kW are taken from the shaft and delivered by nobody, although
+the given status has all the capacity needed; the balance after the repair closes. -/
+theorem repeated_shaft_balance_legacy_gap :
+    let l : Line := ⟨1, [⟨1000, true⟩], [0], some ⟨0, false⟩⟩
+    let p' : Option Pti := some ⟨-500, false⟩
+    rsum ((l.againLegacy p').balance.engineOut) + (l.againLegacy p').balance.ptiOut - l.load = -500 ∧
+    rsum ((l.again p').balance.engineOut) + (l.again p').balance.ptiOut - l.load = 0 ∧ 0 < l.avail := by
+  decide +kernel
 
 /-! ### Non-vacuity: a machine with 90 % efficiency each way, exact inverse -/
 
